@@ -475,6 +475,42 @@ def run(ctx):
                               f"reduce_expr raised {ex!r}",
                               {"expr": str(E0.sympy)[:300]}, False)
 
+    # ---- regression probe (no RNG): 2 * t2eri_A, expanded, is factored
+    # again.  The definition carried the float 0.5, the expansion of
+    # 2 * t2eri_A then the numerator 1.0 which factor_intermediates refuses
+    # (repaired in /repo, findings/C11_t2eri_A_float_prefactor.md)
+    try:
+        t_ = itmds["t2eri_A"].tensor(indices="ijka", return_sympy=True)
+        E_ = Expr(2 * t_, real=True, target_idx="ijka")
+        inp_ = E_.copy().expand_intermediates().expand()
+        ctx.case(key=("probe", "t2eri_A", 2), nontrivial=True,
+                 kind="factor:probe",
+                 sample={"expr": "2*t2eri_A^{ij}_{ka}", "terms": len(inp_)})
+        try:
+            with EQ.time_limit(120):
+                got_ = fact(inp_.copy(), types_or_names=["t2_1", "t2eri_A"])
+            ok_, err_ = True, None
+        except EQ.TimeLimit:
+            ok_, err_ = None, "time limit"
+        except Exception as ex:
+            ok_, err_ = False, repr(ex)
+        if ok_ is not None:
+            if not ctx.obligation("factor(expand(2*t2eri_A)) returns", ok_,
+                                  err_):
+                ctx.violation("C11:factor-exception:t2eri_A:probe",
+                              f"factor_intermediates raised {err_} on the "
+                              "expansion of 2*t2eri_A^{ij}_{ka}",
+                              {"expr": str(inp_.sympy)[:600],
+                               "select": "['t2_1', 't2eri_A']"}, True)
+            else:
+                add("factor:t2eri_A:probe", inp_,
+                    got_.copy().expand_intermediates(),
+                    list(get_symbols("ijka")),
+                    sample={"input": "expansion of 2*t2eri_A^{ij}_{ka}",
+                            "factored": str(got_.sympy)[:200]})
+    except adcio.Unsupported as ex:
+        ctx.note(f"t2eri_A probe outside the fragment: {ex}")
+
     EQ.run_pairs(ctx, "itmd", pairs, shard=6, header=HEADER)
     for p in pairs:
         if p.ok is None:
